@@ -13,6 +13,7 @@ RULE = ("grammar-generated task programs (profiles %s; trees and DAGs of tasks, 
         "the real scheduler and replayed in the Lean machine with the implementation's flush choices; non-trivial = at "
         "least 2 tasks and 1 scheduler flush; distinct by hash of (configuration, programs)" % (", ".join(p for p, _ in MIX)))
 RULE += cc.ASYNCIO_RULE
+RULE += "; plus families valuekinds (generator objects, coroutines, iterators, every class of future passed AS VALUES through every kind of async function and calling convention: identity and untouched state) and equalreceivers (methods and sync_fn pairs on equal-but-distinct / unhashable receivers), judged by direct expectation (Drv/Families6v.lean)"
 TRUSTED = cc.TRUSTED_CORE + cc.TRUSTED_ASYNCIO
 ASSUMPTIONS = cc.ASSUMPTIONS_CORE
 
@@ -21,7 +22,8 @@ def extra(tier, rng):
     import coregen
     return [coregen.override_family(rng) for _ in range(150 if tier == "quick" else 3000)] + \
         [coregen.shared_override_family(rng) for _ in range(100 if tier == "quick" else 2000)] + \
-        cc.asyncio_cases(PID, tier, cc.fork(rng, "aio"))
+        cc.asyncio_cases(PID, tier, cc.fork(rng, "aio")) + \
+        cc.corefam6v.valuekinds_cases(tier, cc.fork(rng, "valuekinds")) + cc.corefam6v.equalreceivers_cases(tier, cc.fork(rng, "equalreceivers"))
 
 
 def plan(tier, seed):
